@@ -190,6 +190,23 @@ def laskar_obliquity(j):
     return math.radians(23.0 + 26.0 / 60.0 + (21.448 + sec) / 3600.0)
 
 
+def sun_vector(j):
+    """The library's geocentric J2000 equatorial vector of the Sun at JDE j, asked for in a way that
+    does not lean on what the routine was asked before (another date first, then fresh objects)
+    and cross-checked against minus the library's heliocentric J2000 vector of the Earth (the two
+    differ by the FK5 frame rotation, under 3e-5 degree)."""
+    Sun.rectangular_coordinates_j2000(Epoch(j + 777.25))
+    s = Sun.rectangular_coordinates_j2000(Epoch(j))
+    L, B, R = Earth.geometric_heliocentric_position_j2000(Epoch(j))
+    v = tb.rot_x(tuple(-x for x in sph2vec(L(), B(), R)), EPS0)
+    off = S.sep_vectors(unit(s), unit(v))
+    if off > 6e-5 or abs(vnorm(s) - vnorm(v)) > 1e-7:
+        raise Violation("Sun.rectangular_coordinates_j2000(JDE %r) = %r is %.3e deg away from minus the "
+                        "Earth's heliocentric J2000 vector of the same instant" % (j, tuple(s), off),
+                        site="Sun.rectangular_coordinates_j2000", kind="sun_vector", off=off)
+    return s
+
+
 def recycled_epoch(j, warm):
     """An Epoch object that already served another date in the same routine and was then moved
     with set() (a caller stepping through an ephemeris re-uses one Epoch)."""
@@ -315,7 +332,7 @@ def body_pluto(case):
         raise Violation("%s moved the caller's Epoch from JDE %r to %r" % (site, j0, e.jde()),
                         site=site, kind="epoch_shifted")
     check_angles(site, ra, dec)
-    sun = Sun.rectangular_coordinates_j2000(Epoch(j))
+    sun = sun_vector(j)
     g = vadd(pluto_vec(j), sun)
     tau = LT * vnorm(g)
     for _ in range(2):
@@ -355,7 +372,19 @@ def body_minor(case):
     cls = e_class(ecc)
     site = "Minor.geocentric_position"
     t_ep = Epoch(tp)
-    m = Minor(q, ecc, Angle(case["i"]), Angle(case["node"]), Angle(case["peri"]), t_ep)
+    if int(abs(j) * 11.0) % 5 == 0:
+        # an object that described another orbit with the same perihelion passage, was asked for
+        # that body's position at this very epoch, and was then given this orbit with set()
+        m = Minor(1.3 * q + 0.1, min(ecc, 0.5), Angle(case["i"] * 0.5 + 3.0), Angle(case["node"] + 20.0),
+                  Angle(case["peri"] + 40.0), t_ep)
+        for fn in (m.heliocentric_ecliptical_position, m.geocentric_position):
+            try:
+                fn(Epoch(j))
+            except ValueError:
+                pass
+        m.set(q, ecc, Angle(case["i"]), Angle(case["node"]), Angle(case["peri"]), t_ep)
+    else:
+        m = Minor(q, ecc, Angle(case["i"]), Angle(case["node"]), Angle(case["peri"]), t_ep)
     if int(abs(j) * 7.0) % 4 == 0:
         e = recycled_epoch(j, m.geocentric_position)
     else:
@@ -373,7 +402,7 @@ def body_minor(case):
         raise Violation("%s moved an Epoch of the caller (epoch %r -> %r, perihelion %r -> %r)"
                         % (site, j0, e.jde(), tp0, t_ep.jde()), site=site, kind="epoch_shifted")
     check_angles(site, ra, dec, elon)
-    sun = Sun.rectangular_coordinates_j2000(Epoch(j0))
+    sun = sun_vector(j0)
     g = vadd(minor_vec(case, j0), sun)
     tau = LT * vnorm(g)
     for _ in range(3):
